@@ -40,6 +40,12 @@ var targets = []target{
 	{"pkg/p2p/peer.go", []string{"newPeer"}},
 	{"pkg/p2p/peerbook.go", []string{"*"}},
 	{"pkg/p2p/conngater.go", []string{"connectionGater.optionWithBlacklist"}},
+	// ban path (Props/C18_Roles.lean): the ban decision and the disconnect depend on the score only - the exact
+	// list of conditions and calls of these functions is pinned, so a role / configuration dependent early return
+	// (a peerbook or cfg lookup in front of ClosePeer or of the gater's addPenalty) breaks an obligation
+	{"pkg/p2p/peer.go", []string{"Peer.Disconnect", "Peer.addPenalty", "Peer.banPeer"}},
+	{"pkg/p2p/p2p.go", []string{"Connection.ApplyPenalty", "Connection.BanPeer"}},
+	{"pkg/p2p/message_protocol.go", []string{"MessageProtocol.banRemotePeer"}},
 }
 
 var fset = token.NewFileSet()
